@@ -10,7 +10,7 @@
 V=$(cd "$(dirname "$0")/.." && pwd); cd $V
 TIER=${1:-quick}; shift
 SEEDS=${@:-"20261002 7 31337"}
-PROPS=$(python3 -c "import json;print(' '.join(p['id'] for p in json.load(open('MANIFEST.json'))['properties']))")
+PROPS=$(python3 -c "import json;c=json.load(open('MANIFEST.json'))['checks'];print(' '.join(sorted(set((x.get('property_id') or x.get('property') or x.get('id')) for x in (c if isinstance(c,list) else c.values())))))")
 bin/check --build-only || exit 2
 mkdir -p determinism
 OUT=determinism/$TIER.json
